@@ -140,11 +140,10 @@ func ListSolarFromBaZiBySectAndBaseYear(yearGanZhi string, monthGanZhi string, d
 		return l
 	}
 	// 1年的立春是辛酉，序号57
-	y := LunarUtil.GetJiaZiIndex(yearGanZhi) - 57
+	y := LunarUtil.GetJiaZiIndex(yearGanZhi) - 56
 	if y < 0 {
 		y += 60
 	}
-	y += 1
 	// 节令偏移值
 	m *= 2
 	// 时辰地支转时刻，子时按零点算
